@@ -18,8 +18,10 @@ import time
 VERIF = os.path.dirname(os.path.dirname(os.path.abspath(__file__)))
 
 
-def extract_playback_test(log_text):
-    m = re.search(r"(#\[test\]\s*\n\s*fn (kani_concrete_playback_\w+)\(\)\s*\{.*?\n\})", log_text, re.S)
+def extract_playback_test(log_text, harness_id):
+    log_text = re.sub(r"(?m)^Thread \d+: ", "", log_text)
+    m = re.search(r"(#\[test\]\s*\n\s*fn (kani_concrete_playback_" + re.escape(harness_id)
+                  + r"_\d+)\(\)\s*\{.*?\n\})", log_text, re.S)
     if not m:
         return None, None
     return m.group(1), m.group(2)
@@ -49,11 +51,11 @@ def eval_predicate(pred, decoded):
     return False
 
 
-def _point_mod_at(ws, src, new_path):
+def _point_mod_at(ws, src, new_path, mod="__verif"):
     target = os.path.join(ws, src)
     text = open(target, encoding="utf-8").read()
-    text, n = re.subn(r'#\[cfg\(kani\)\] #\[path = "[^"]*"\] mod __verif;',
-                      f'#[cfg(kani)] #[path = "{new_path}"] mod __verif;', text)
+    text, n = re.subn(r'#\[cfg\(kani\)\] #\[path = "[^"]*"\] mod ' + re.escape(mod) + ";",
+                      f'#[cfg(kani)] #[path = "{new_path}"] mod {mod};', text)
     if n != 1:
         raise RuntimeError("overlay line not found in " + src)
     open(target, "w", encoding="utf-8").write(text)
@@ -68,7 +70,7 @@ def run_playback_test(runner, ws, prop, h, test_src, test_name, profiles=("dev",
     shutil.copyfile(h["file"], copy)
     with open(copy, "a", encoding="utf-8") as f:
         f.write("\n// ---- concrete playback (appended by tools/replay.py) ----\n" + test_src + "\n")
-    _point_mod_at(ws, h["src"], copy)
+    _point_mod_at(ws, h["src"], copy, h["mod"])
     env = dict(runner.ENV)
     env["CARGO_TARGET_DIR"] = os.path.join(runner.CACHE, "playback-target", prop)
     outcomes = {}
@@ -96,7 +98,7 @@ def run_playback_test(runner, ws, prop, h, test_src, test_name, profiles=("dev",
             outcomes[prof] = "error"
         panic = re.search(r"panicked at [^\n]*\n[^\n]*", out)
         outcomes[prof + "_detail"] = (panic.group(0) if panic else out[-400:]).strip()
-    _point_mod_at(ws, h["src"], h["file"])
+    _point_mod_at(ws, h["src"], h["file"], h["mod"])
     return outcomes
 
 
@@ -104,11 +106,14 @@ def replay_failure(runner, ws, prop, h, info):
     """Returns {reproduced, path, note, decoded}."""
     t0 = time.time()
     kind = h.get("replay", "playback")
-    r = runner.run_kani(ws, prop, h["group"], [h], 1, None,
-                        h.get("cbmc_args", "").split() if h.get("cbmc_args") else [],
-                        int(h.get("timeout", 1200)), playback=True)
-    log_text = open(r["log"], errors="replace").read()
-    test_src, test_name = extract_playback_test(log_text)
+    log_text = open(info["log"], errors="replace").read()
+    test_src, test_name = extract_playback_test(log_text, h["id"])
+    if not test_src:  # the batch log had no test for this harness: ask again, alone
+        r = runner.run_kani(ws, prop, h["group"], [h], 1, None,
+                            h.get("cbmc_args", "").split() if h.get("cbmc_args") else [],
+                            int(h.get("timeout", 1200)), playback=True)
+        log_text = open(r["log"], errors="replace").read()
+        test_src, test_name = extract_playback_test(log_text, h["id"])
     rdir = os.path.join(VERIF, "replays", prop)
     os.makedirs(rdir, exist_ok=True)
     path = os.path.join(rdir, h["id"] + ".json")
